@@ -23,9 +23,37 @@ def compile_pat(ip, s):
     return cache[pat]
 
 
+def obviously_invalid(pat):
+    """Patterns the regex crate certainly rejects: unbalanced parentheses / brackets, dangling quantifier."""
+    depth = 0
+    i = 0
+    incls = False
+    while i < len(pat):
+        ch = pat[i]
+        if ch == '\\':
+            i += 2
+            continue
+        if incls:
+            if ch == ']':
+                incls = False
+        elif ch == '[':
+            incls = True
+        elif ch == '(':
+            depth += 1
+        elif ch == ')':
+            depth -= 1
+            if depth < 0:
+                return True
+        i += 1
+    return depth != 0 or incls or pat[:1] in ('*', '+', '?')
+
+
 @model(r'^regex::Regex::new$')
 def m_regex_new(c, s):
     ip = c.ip
+    b = bytes_of(ip, s)
+    if b is not None and obviously_invalid(b.decode('utf8', 'replace')):
+        return err(ip, Opaque('regex::Error', 'syntax'))
     return ok(ip, Opaque('Regex', 'regex', compile_pat(ip, s)))
 
 
